@@ -11,6 +11,27 @@ VALS = ['-/dev/null:/dev/n:rwm', '-/dev/null:/dev/n', '/dev/null:/dev/n:rwm', '-
         '-/dev/null', '-/dev/nope:rw', 'CAP_X y', 'a,b', 'a=b=c', '%%x', 'x y  z', '1000', 'keep-id:uid=1', 'local', 'nfs', '10.0.0.0/24']
 
 
+def respell(rnd, k, v):
+    """another spelling of the assignment k=v as a unit-file line: spacing around '=', trailing blanks, the value wholly
+    quoted, a character written as an escape, protected white space at the ends (which changes the value: used in
+    streams where model and implementation are compared on the same text, not where a Python oracle reads the text)"""
+    r = rnd.random()
+    if r < 0.2:
+        return k + rnd.choice([' ', '  ', '\t']) + '=' + rnd.choice(['', ' ', '\t ']) + v + rnd.choice(['', ' ', ' \t'])
+    if r < 0.45 and '"' not in v and '\\' not in v:
+        return k + '="' + v + '"'
+    if r < 0.55 and "'" not in v and '\\' not in v:
+        return k + "='" + v + "'"
+    if r < 0.75 and v and '\\' not in v:
+        i = rnd.randrange(len(v))
+        c = v[i]
+        if ord(c) < 0x80 and c not in '"\'':
+            return k + '=' + v[:i] + rnd.choice(['\\x%02x' % ord(c), '\\%03o' % ord(c), '\\u%04x' % ord(c)]) + v[i + 1:]
+    if r < 0.9 and '"' not in v and '\\' not in v:
+        return k + '="' + rnd.choice([' ', '\\t', '']) + v + rnd.choice([' ', '\\n', '\\s', '']) + '"'
+    return k + '=' + v
+
+
 def unit(rnd, tables, ty, nkeys=10, near_miss=0.03, extras=True):
     keys = tables['supported'][SUP[ty]]
     lines = ['[' + SEC[ty] + ']'] + list(BASE[ty])
@@ -18,7 +39,8 @@ def unit(rnd, tables, ty, nkeys=10, near_miss=0.03, extras=True):
         k = rnd.choice(keys)
         if rnd.random() < near_miss:
             k = k.lower()
-        lines.append(k + '=' + rnd.choice(VALS))
+        v = rnd.choice(VALS)
+        lines.append(respell(rnd, k, v) if rnd.random() < 0.2 else k + '=' + v)
     extra = []
     if extras:
         if rnd.random() < 0.4:
